@@ -8,7 +8,7 @@ EXPLANATION = (
     "string forms are accepted wherever a position is; Row API negative positions agree with non-negative ones (KT layer). "
 )
 OUTSIDE = ("expanding getters at repeats > 2; columns of 4 or more letters (> 18277), rows > 10000 in written addresses; named ranges: symbolic table names longer than 2 characters "
-           "(longer ones from a representative list), areas beyond D4, table names containing . or $ (known finding C19-namedrange-dot-dollar); Table.name renames updating named ranges")
+           "(longer ones from a representative list), areas beyond D4, table names containing . or $ (known finding C19-namedrange-dot-dollar)")
 ASSUMPTIONS = []
 TRUSTED = _T
 _ENC = ["src/odfdo/utils/coordinates.py:alpha_to_digit,digit_to_alpha,convert_coordinates,increment,translate_from_any"]
@@ -52,6 +52,9 @@ OBLIGATIONS += [
         bounds="areas with corners in 0..3, table name one of 'ab', 'a b', \"a'b\"", encodes=_NENC, stubs=_NSTUB),
     Obl(name="nr_roundtrip_listed", module="h_nrange", func="nr_roundtrip_listed", shadow=True, timeout=300, replay="r_h_nrange:nr_roundtrip_listed", weight=45,
         bounds="9 representative longer names chosen by a symbolic index (the solver only picks the case), areas with corner in 0..2", encodes=_NENC, stubs=_NSTUB),
+    Obl(name="rename_updates_ranges", module="h_nrange", func="rename_updates_ranges", shadow=True, timeout=600, replay="r_h_nrange:rename_updates_ranges", weight=135,
+        bounds="spreadsheet body with tables t1, zz and one named range on each; t1 renamed to a symbolic accepted name of 1..2 characters over {a, b, space}",
+        encodes=_NENC + ["src/odfdo/table.py:Table.name (setter),get_named_ranges,NamedRange.set_table_name", "src/odfdo/element.py:get_named_ranges,get_named_range,document_body"], stubs=_NSTUB),
     Obl(name="nr_roundtrip_dotted", module="h_nrange", func="nr_roundtrip_dotted", shadow=True, timeout=120, replay="r_h_nrange:nr_roundtrip_dotted", weight=10,
         expect="finding", finding="C19-namedrange-dot-dollar", bounds="companion of known finding C19-namedrange-dot-dollar", encodes=_NENC, stubs=_NSTUB),
 ]
